@@ -70,7 +70,7 @@ type World struct {
 
 // Ev is an event: block delivery, vote, restart.
 type Ev struct {
-	Kind  string // block, voteA, voteB, restart
+	Kind  string // block, voteA, voteB, restart, rescan
 	Block int
 	Val   int
 }
@@ -165,6 +165,8 @@ type Inst struct {
 	In       *chainlab.Inst
 	WalletDB *crashkv.DB
 	Wallet   *wallet.Wallet
+	// RescanIgnored: a rescan request was not taken up within the watchdog time
+	RescanIgnored bool
 }
 
 func (w *World) newWallet(in *chainlab.Inst, db *crashkv.DB) (*wallet.Wallet, error) {
@@ -228,6 +230,21 @@ func (x *Inst) Apply(e Ev) {
 		nd.Chain.ProcessBlockVerification(labnet.VoteMsg(w.W.Net.Keys[e.Val], w.W.Net.Gen.Hash(), w.W.Blocks[w.a2].Hash()))
 	case "voteB":
 		nd.Chain.ProcessBlockVerification(labnet.VoteMsg(w.W.Net.Keys[e.Val], w.W.Net.Gen.Hash(), w.W.Blocks[w.b2].Hash()))
+	case "rescan":
+		// a rescan request (rescan-wallet API, account deletion, recovery): wait until the walletUpdater goroutine
+		// has taken it up (completion counter inserted by tools/wallet_prebuild.sh), then until it has caught up
+		n0 := wallet.VerifRescans()
+		x.Wallet.RescanBlocks()
+		deadline := time.Now().Add(30 * time.Second)
+		for wallet.VerifRescans() == n0 && time.Now().Before(deadline) {
+			time.Sleep(100 * time.Microsecond)
+		}
+		if wallet.VerifRescans() == n0 {
+			x.RescanIgnored = true
+			return
+		}
+		x.WaitSync(30 * time.Second)
+		return
 	case "restart":
 		// node and wallet restart on their stores; the old wallet stays attached to the old (now idle) chain object
 		n2, err := labnet.NewNode(x.In.DB)
